@@ -16,7 +16,7 @@ def engine_b(tier, seed):
 
 
 SPEC = ([("i%d" % k, int) for k in range(MAXL)] + [("d%d" % k, int) for k in range(10)] +
-        [("rooted", bool), ("f_sup", bool), ("f_col", bool), ("ns_mode", int), ("t1", int), ("t2", int), ("f_x", bool),
+        [("rooted", bool), ("f_sup", bool), ("f_col", bool), ("f_nostore", bool), ("f_mut", bool), ("ns_mode", int), ("t1", int), ("t2", int), ("f_x", bool),
          ("shape", list), ("shape2", list), ("nbits", int), ("stale", int)])
 
 
@@ -99,7 +99,10 @@ def c01_encode(kw):
     bit_of = {}
     for i, t in enumerate(taxa):
         bit_of[id(t)] = 1 << i
-    enc = tree.encode_bipartitions(suppress_unifurcations=sup, collapse_unrooted_basal_bifurcation=col)
+    nostore = True if kw["f_nostore"] else False
+    mut = True if kw["f_mut"] else False
+    enc = tree.encode_bipartitions(suppress_unifurcations=sup, collapse_unrooted_basal_bifurcation=col,
+                                   suppress_storage=nostore, is_bipartitions_mutable=mut)
     wf = tg.wellformed(tree)
     if wf is not None:
         return wf
@@ -110,7 +113,10 @@ def c01_encode(kw):
         exp_full |= 1 << i
     if full != exp_full:
         return "encode-changed-the-leaf-taxa"
-    if len(enc) != len(live):
+    if nostore:
+        if enc is not None or tree.bipartition_encoding is not None:
+            return "suppress-storage-stored-an-encoding"
+    elif len(enc) != len(live):
         return "encoding-length-differs-from-number-of-edges"
     seen = set()
     for nd in live:
@@ -127,6 +133,13 @@ def c01_encode(kw):
         seen.add(id(b))
         if sup and len(nd._child_nodes) == 1:
             return "unifurcation-not-suppressed"
+        if b.is_mutable != mut:
+            return "bipartition-mutability-not-as-requested"
+    if nostore:
+        return True
+    if mut:
+        # mutable bipartitions are unhashable by design: the edge maps are only defined for immutable encodings
+        return True if [id(b) for b in enc] == [id(nd._edge._bipartition) for nd in tree.postorder_node_iter()] else "encoding-list-is-not-the-edges-bipartitions"
     if set(id(b) for b in enc) != seen:
         return "encoding-list-is-not-the-edges-bipartitions"
     sbem = tree.split_bitmask_edge_map
@@ -340,7 +353,7 @@ def _leaves(v):
     return sum(1 for i in range(len(v) + 1) if i not in v)
 
 
-BUDGET = dict(quick=240, thorough=1500)
+BUDGET = dict(quick=240, thorough=1000)
 
 
 def harnesses(tier):
@@ -362,7 +375,7 @@ def harnesses(tier):
                       bounds=dict(shapes="every ordered shape with 2..%d nodes, 2..%d leaves (polytomies, stars, caterpillars; unifurcations up to %d nodes)" % (nmax, 4 if q else 5, nmax_unif),
                                   bits="each leaf taxon's accession index symbolic, pairwise distinct, in [0,%d) for few leaves (quick: 2, thorough: <= 3), else in [0,%s)" % (nbits, "4" if q else "leaves+1"),
                                   namespace="as created / unused taxa removed / reversed / removed+sorted+extended (one shard each)",
-                                  flags="rooting, suppress_unifurcations, collapse_unrooted_basal_bifurcation symbolic"), cost=3.0, **common))
+                                  flags="rooting, suppress_unifurcations, collapse_unrooted_basal_bifurcation, suppress_storage, is_bipartitions_mutable symbolic"), cost=3.0, **common))
     pairs = [(a, b) for a in shapes_nounif for b in shapes_nounif if _leaves(a) == _leaves(b) and a <= b]
     hs.append(Harness("c01_iff", "C01", c01_iff,
                       [dict(shape=a, shape2=b, nbits=_leaves(a) + 1) for a, b in pairs],
